@@ -536,6 +536,15 @@ class _Hot(Client):
         self.db, self.f = db, f
         self.bad = []
         self.sites = 0
+        # boolean locals that hold the result of IsHotEdge(X)
+        self.flags = {}
+        for x in walk(f.body):
+            if x.get("kind") == "VarDecl" and "id" in x:
+                init = [c for c in kids(x) if c.get("kind")]
+                if init:
+                    i0 = _u(init[-1])
+                    if i0.get("kind") == "CallExpr" and db.callee(i0)[0] == "IsHotEdge":
+                        self.flags[x["id"]] = self._key(db.call_args(i0)[0])
 
     def join(self, a, b):
         return a & b
@@ -590,6 +599,9 @@ class _Hot(Client):
         e0 = _u(e)
         if e0.get("kind") == "CallExpr" and self.db.callee(e0)[0] == "IsHotEdge":
             key = self._key(self.db.call_args(e0)[0])
+            return st | {key}, st - {key}
+        if e0.get("kind") == "DeclRefExpr" and e0.get("referencedDecl", {}).get("id") in self.flags:
+            key = self.flags[e0["referencedDecl"]["id"]]
             return st | {key}, st - {key}
         s = canon(e0)
         m = re.match(r'^(.*)(\.|->)outrec$', s)
